@@ -465,3 +465,42 @@ def guards_on_all_paths(body, block, dom=None):
             truth = not truth
         out.append((a, k, truth))
     return out
+
+
+def fmt_templates(body):
+    """[(line, pieces, [argument root local | None], [argument name | None])] for every format_args! expansion in `body`:
+    pieces from artefact.rx.decode_fmt_template (('lit', text) | ('arg', index)), arguments in *index* order
+    (format_args! keeps each distinct argument once)."""
+    from ..artefact.rx import decode_fmt_template, Unsupported
+    from ..dataflow import single_def, raw_operand_place
+    out = []
+    for c in body.calls():
+        if (c.path or "") != "std::fmt::Arguments::new" or len(c.args) < 2:
+            continue
+        t = operand_term(body, c.args[0])
+        if t[0] != "const" or not isinstance(t[2], str):
+            continue
+        try:
+            pieces = decode_fmt_template(t[2])
+        except Unsupported:
+            continue
+        rp = raw_operand_place(body, c.args[1])
+        d = single_def(body, rp[0]) if rp else None
+        roots, names = [], []
+        if d and d[0] == "assign" and d[3][0] == "agg" and d[3][1] == "array":
+            for o in d[3][4]:
+                r2 = raw_operand_place(body, o)
+                d2 = single_def(body, r2[0]) if r2 else None
+                arg = None
+                if d2 and d2[0] == "call" and d2[3].args:
+                    arg = d2[3].args[0]
+                    r3 = raw_operand_place(body, arg)
+                    if r3 and len(r3) >= 2 and isinstance(r3[1], list) and r3[1][0] == "f":
+                        d3 = single_def(body, r3[0])
+                        if d3 and d3[0] == "assign" and d3[3][0] == "agg" and d3[3][1] == "tuple" and r3[1][1] < len(d3[3][4]):
+                            arg = d3[3][4][r3[1][1]]
+                rr = raw_operand_place(body, arg) if arg else None
+                roots.append(rr[0] if rr else None)
+                names.append(body.local_name(rr[0]) if rr else None)
+        out.append((c.line, pieces, roots, names))
+    return out
